@@ -4,9 +4,10 @@ as known findings.  usage: tools_record_findings.py Cnn [id-substring ...]"""
 import json, glob, sys, os
 HERE = os.path.dirname(os.path.abspath(__file__))
 prop = sys.argv[1]
-only = sys.argv[2:]
+only = [a for a in sys.argv[2:] if not a.startswith('--')]
 kf = json.load(open(os.path.join(HERE, 'known_findings.json')))
-keep = [f for f in kf['findings'] if f['property'] != prop or (only and not any(s in f['id'] for s in only))]
+reset = '--reset' in sys.argv
+keep = [f for f in kf['findings'] if not reset or f['property'] != prop or (only and not any(s in f['id'] for s in only))]
 new = []
 for f in sorted(glob.glob(os.path.join(HERE, 'replays', prop, '*.json'))):
     d = json.load(open(f))
@@ -15,7 +16,11 @@ for f in sorted(glob.glob(os.path.join(HERE, 'replays', prop, '*.json'))):
     r = d.get('replay') or {}
     if d['kind'] == 'ob':
         if not r.get('input') or not r.get('fires'):
-            print('SKIP (no replayed witness):', d['id'])
+            if '--allow-no-witness' not in sys.argv:
+                print('SKIP (no replayed witness):', d['id'])
+                continue
+            # identified by call site / obligation only (no data-level witness exists on the reference engine)
+            new.append({'property': prop, 'id': d['id'], 'witness': None, 'dialect': 'mindsdb', 'what': ' '.join(f"(identified by obligation; no failing input found) {str(d['detail'])[:220]}".split())})
             continue
         wit, dialect, obs = r['input'], r.get('dialect', 'mindsdb'), r.get('observed')
         what = f"{str(d['detail'])[:200]}; replay `{str(wit)[:120]}` -> {str(obs)[:140]}"
@@ -23,6 +28,7 @@ for f in sorted(glob.glob(os.path.join(HERE, 'replays', prop, '*.json'))):
         wit, dialect, obs = d['input'], 'mindsdb', d.get('observed')
         what = f"`{str(wit)[:140]}` -> {str(obs)[:200]}"
     new.append({'property': prop, 'id': d['id'], 'witness': wit, 'dialect': dialect, 'what': ' '.join(what.split())})
-kf['findings'] = keep + new
+ids = {(n['property'], n['id']) for n in new}
+kf['findings'] = [f for f in keep if (f['property'], f['id']) not in ids] + new
 json.dump(kf, open(os.path.join(HERE, 'known_findings.json'), 'w'), indent=1, ensure_ascii=False)
 print(f'{prop}: recorded {len(new)} findings')
